@@ -58,6 +58,10 @@ pub struct C12Case {
     /// the same order (equal inode numbers) with equal lengths and equal mtimes but different bytes
     #[serde(default)]
     pub twin_fs: bool,
+    /// the history starts with the hash database that a SIGKILLed `group --cache` left behind on
+    /// 2026-10-05 (corpus/C12/fixtures/badcache1.tgz; sled reports it as corrupted)
+    #[serde(default)]
+    pub corrupt_cache_fixture: bool,
 }
 
 const SIZES: [u64; 8] = [5000, 16384, 20000, 65536, 70000, 100000, 131072, 140000];
@@ -94,8 +98,8 @@ fn case_strategy() -> BoxedStrategy<C12Case> {
     let tr = prop::option::weighted(0.3, prop_oneof![Just(TrOp::Cat), Just(TrOp::Upper), Just(TrOp::Head(5000)), Just(TrOp::Head(17000)), Just(TrOp::Expand), Just(TrOp::Header), Just(TrOp::NeedKey), Just(TrOp::NeedKey)].prop_map(|op| Tr { op, io: TrIo::Pipe }));
     let step = (proptest::collection::vec(edit, 0..4), prop_oneof![3 => Just(0u8), 1 => 0u8..7], tr, knob(), knob(), prop_oneof![2 => Just(1u8), 1 => Just(2u8), 1 => Just(0u8)])
         .prop_map(|(edits, hash_fn, transform, max_prefix, max_suffix, disk)| Step { edits, hash_fn, transform, max_prefix, max_suffix, disk });
-    (proptest::collection::vec(content(), 3..8), proptest::collection::vec(step, 1..=6), prop::bool::weighted(0.5), prop::bool::weighted(0.15))
-        .prop_map(|(files, mut steps, ext4, twin_fs)| {
+    (proptest::collection::vec(content(), 3..8), proptest::collection::vec(step, 1..=6), prop::bool::weighted(0.5), prop::bool::weighted(0.15), prop::bool::weighted(0.04))
+        .prop_map(|(files, mut steps, ext4, twin_fs, corrupt_cache_fixture)| {
             // option changes between steps are the exception; mostly keep the configuration of the first step
             for i in 1..steps.len() {
                 if i % 3 != 2 {
@@ -126,7 +130,7 @@ fn case_strategy() -> BoxedStrategy<C12Case> {
                 steps[1].hash_fn = steps[0].hash_fn;
                 steps[1].edits.insert(0, CEdit::ToggleKey);
             }
-            C12Case { files, steps, ext4, twin_fs }
+            C12Case { files, steps, ext4, twin_fs, corrupt_cache_fixture }
         })
         .boxed()
 }
@@ -415,6 +419,16 @@ pub fn run_case(c: &C12Case, n: u64) -> Verdict {
     let dir = cd.tree().join("r");
     std::fs::create_dir_all(&dir).unwrap();
     let mut w = World { dir: dir.clone(), clock_ms: BASE_TIME * 1000, counter: 0, inode_reuse: 0, same_len_rewrites_after_cached_run: 0, older_rewrites: 0, during_run: 0 };
+    if c.corrupt_cache_fixture {
+        let _ = std::process::Command::new("tar")
+            .arg("xzf")
+            .arg(format!("{}/corpus/C12/fixtures/badcache1.tgz", VERIF))
+            .arg("-C")
+            .arg(cd.base.join("cache"))
+            .stdout(std::process::Stdio::null())
+            .stderr(std::process::Stdio::null())
+            .status();
+    }
     let mut mounts: Vec<PathBuf> = vec![];
     let mut twins = 0;
     if c.twin_fs {
@@ -526,6 +540,9 @@ pub fn run_case(c: &C12Case, n: u64) -> Verdict {
     if w.older_rewrites > 0 {
         classes.push("rewrite-with-older-mtime".into());
     }
+    if c.corrupt_cache_fixture {
+        classes.push("starts-with-a-database-left-by-a-killed-run".into());
+    }
     if w.during_run > 0 {
         classes.push("rewrite-while-a-cached-run-was-blocked".into());
     }
@@ -548,7 +565,7 @@ pub fn check(tier: Tier) -> i32 {
     cleanup_process_scratch();
     ctx.finish(
         "exploration",
-        "proptest-generated histories of 1-6 steps over 3-7 files of 5-140 KB that share long prefixes and suffixes (two content classes, single-byte differences at stage-boundary offsets): each step applies 0-3 edits (create, in-place rewrite of the same length with a newer or with an older mtime, make identical to another file, append/truncate with or without keeping the mtime, rename, delete+recreate under the same name - on ext4 the inode is usually reused, counted -, hard link, SIGKILL of a running `group --cache` after 1-29 ms, an in-place same-length rewrite applied while a `group --cache --threads 1` run is blocked by the interposer at its k-th read-side libc call on a tree file (k drawn, after a recording run on a copy of the cache, from the calls that touch the file to be rewritten, or one time in four from all calls), creation of the key file without which the `needkey` transform fails after partial output) and then runs `group` uncached, cached (cold for this step) and cached again (warm), all with the same options; options (hash fn, transform - also the same program with other arguments -, max-prefix/suffix, pinned device) change on some steps. Every content change gets a fresh mtime (next value of a logical clock with 1 ms steps, or for the 'older' rewrites a fresh value 1 ms below every earlier one): the mtime always changes, which is the premise of the property. In 15 % of the histories the scanned directory holds two freshly mounted tmpfs file systems whose files were created in the same order (equal inode numbers, counted) with equal lengths and mtimes but different bytes. Oracle (model = the uncached tool): report bodies incl. hashes and statistics must be byte-identical. Non-trivial = a same-length in-place rewrite or an inode-reusing recreate after a cached run, followed by a run with the same hash function.",
+        "proptest-generated histories of 1-6 steps over 3-7 files of 5-140 KB that share long prefixes and suffixes (two content classes, single-byte differences at stage-boundary offsets): each step applies 0-3 edits (create, in-place rewrite of the same length with a newer or with an older mtime, make identical to another file, append/truncate with or without keeping the mtime, rename, delete+recreate under the same name - on ext4 the inode is usually reused, counted -, hard link, SIGKILL of a running `group --cache` after 1-29 ms, an in-place same-length rewrite applied while a `group --cache --threads 1` run is blocked by the interposer at its k-th read-side libc call on a tree file (k drawn, after a recording run on a copy of the cache, from the calls that touch the file to be rewritten, or one time in four from all calls), creation of the key file without which the `needkey` transform fails after partial output) and then runs `group` uncached, cached (cold for this step) and cached again (warm), all with the same options; options (hash fn, transform - also the same program with other arguments -, max-prefix/suffix, pinned device) change on some steps. Every content change gets a fresh mtime (next value of a logical clock with 1 ms steps, or for the 'older' rewrites a fresh value 1 ms below every earlier one): the mtime always changes, which is the premise of the property. In 15 % of the histories the scanned directory holds two freshly mounted tmpfs file systems whose files were created in the same order (equal inode numbers, counted) with equal lengths and mtimes but different bytes. 4 % of the histories start with the (sled-corrupted) hash database a SIGKILLed run left behind (a saved fixture). Oracle (model = the uncached tool): report bodies incl. hashes and statistics must be byte-identical. Non-trivial = a same-length in-place rewrite or an inode-reusing recreate after a cached run, followed by a run with the same hash function.",
         &["mtimes are set by the harness with millisecond steps", "XDG_CACHE_HOME is private to the history"],
     )
 }
